@@ -156,3 +156,28 @@ impl Combinable<OrderedFloat<f64>> for OrderedFloat<f64> {
         }
     }
 }
+
+#[cfg(feature = "verif")]
+pub fn verif_merge_aggregate_i64(
+    ops: &[MergeOp],
+    left: &[i64],
+    right: &[i64],
+    aggregator: Aggregator,
+) -> Result<Vec<i64>, QueryError> {
+    merge_aggregate::<i64>(ops, left, right, aggregator)
+}
+
+#[cfg(feature = "verif")]
+pub fn verif_merge_aggregate_f64(
+    ops: &[MergeOp],
+    left: &[of64],
+    right: &[of64],
+    aggregator: Aggregator,
+) -> Result<Vec<of64>, QueryError> {
+    merge_aggregate::<of64>(ops, left, right, aggregator)
+}
+
+#[cfg(feature = "verif")]
+pub fn verif_combine_i64(op: Aggregator, a: i64, b: i64) -> Result<i64, QueryError> {
+    <i64 as Combinable<i64>>::combine(op, a, b)
+}
